@@ -73,6 +73,31 @@ func mkG2(a *big.Int) *bls.G2 {
 	return &P
 }
 
+// formG1 / formG2 return p·G either freshly decoded (affine, z = 1) or, two times out of three, as the
+// un-normalised output of library operations (sum, double, negation, multiple; the identity then is
+// whatever representation with z = 0 those operations leave).
+func formG1(t *rapid.T, ad *adapter, p *big.Int, label string) (*bls.G1, string) {
+	if rapid.IntRange(0, 2).Draw(t, label+".aff") == 0 {
+		return mkG1(p), "affine"
+	}
+	P, form := unnormalised(t, ad, p, label)
+	if got, want := ad.enc(P), ad.want(p); got != want {
+		mismatch(t, ad, "Add", "building-"+form, got, want, "exponent "+p.Text(16))
+	}
+	return P.(*bls.G1), form
+}
+
+func formG2(t *rapid.T, ad *adapter, q *big.Int, label string) (*bls.G2, string) {
+	if rapid.IntRange(0, 2).Draw(t, label+".aff") == 0 {
+		return mkG2(q), "affine"
+	}
+	Q, form := unnormalised(t, ad, q, label)
+	if got, want := ad.enc(Q), ad.want(q); got != want {
+		mismatch(t, ad, "Add", "building-"+form, got, want, "exponent "+q.Text(16))
+	}
+	return Q.(*bls.G2), form
+}
+
 // blsScalar feeds a big-endian integer of the given width through Scalar.SetBytes (documented to reduce mod r).
 func blsScalar(k *big.Int, n int) *bls.Scalar {
 	var s bls.Scalar
@@ -84,7 +109,19 @@ const blsScalarBytes = 48 // SetBytes takes any length; 48 bytes covers 0 … fa
 
 func g1Adapter() *adapter {
 	ref := curves.BLSG1
-	ad := &adapter{name: "bls12381.G1", r: ref.R, sbytes: blsScalarBytes}
+	ad := &adapter{name: "bls12381.G1", r: ref.R, sbytes: blsScalarBytes, projective: true, wc: ref}
+	// cofactor of E(Fp): (z−1)²/3 with the BLS parameter z = −0xd201000000010000
+	z := new(big.Int).Neg(new(big.Int).SetUint64(0xd201000000010000))
+	zm1 := new(big.Int).Sub(z, big.NewInt(1))
+	ad.cof = new(big.Int).Div(new(big.Int).Mul(zm1, zm1), big.NewInt(3))
+	ad.mkW = func(p curves.WPoint) pt {
+		var P bls.G1
+		if err := P.SetBytes(g1Bytes(p)); err != nil {
+			panic(fmt.Sprintf("SELFTEST-FAIL G1.SetBytes rejects a reference point: %v", err))
+		}
+		return &P
+	}
+	ad.encW = wStr
 	ad.ref = func(k *big.Int) string { return wStr(ref.MulG(k)) }
 	ad.mk = func(a *big.Int) pt { return mkG1(a) }
 	ad.enc = func(p pt) string {
@@ -107,7 +144,7 @@ func g1Adapter() *adapter {
 
 func g2Adapter() *adapter {
 	ref := curves.BLSG2
-	ad := &adapter{name: "bls12381.G2", r: ref.R, sbytes: blsScalarBytes}
+	ad := &adapter{name: "bls12381.G2", r: ref.R, sbytes: blsScalarBytes, projective: true}
 	ad.ref = func(k *big.Int) string { return wStr(ref.MulG(k)) }
 	ad.mk = func(a *big.Int) pt { return mkG2(a) }
 	ad.enc = func(p pt) string {
@@ -142,6 +179,7 @@ func TestC13BLSGroups(t *testing.T) {
 		vlib.ReportDirect(t, "C13/bls12381.Order/mismatch", fmt.Sprintf("%x", bls.Order()), nil)
 	}
 	runAdapter(t, a1, 150, 600)
+	runSpecialW(t, a1, 60)
 	runAdapter(t, a2, 100, 400)
 	t.Run("bls-api", func(t *testing.T) {
 		sub := "grouplaw/bls12381/api"
@@ -184,7 +222,7 @@ func gtExp(x *bls.Gt, e *big.Int, r *big.Int) *bls.Gt {
 func TestC13Pairing(t *testing.T) {
 	defer vlib.Done()
 	selftest(t)
-	a1 := g1Adapter()
+	a1, a2 := g1Adapter(), g2Adapter()
 	r := a1.r
 	e0 := bls.Pair(bls.G1Generator(), bls.G2Generator())
 	one := &bls.Gt{}
@@ -220,8 +258,11 @@ func TestC13Pairing(t *testing.T) {
 			vlib.Class(sub, "Q:"+qcls)
 			vlib.Class(sub, "a:"+acls)
 			vlib.Class(sub, "b:"+bcls)
-			P, Q := mkG1(p), mkG2(q)
-			desc := fmt.Sprintf("P=%s·G1 Q=%s·G2 a=%s b=%s", p.Text(16), q.Text(16), a.Text(16), b.Text(16))
+			P, fP := formG1(t, a1, p, "pform")
+			Q, fQ := formG2(t, a2, q, "qform")
+			vlib.Class(sub, "P-form="+fP)
+			vlib.Class(sub, "Q-form="+fQ)
+			desc := fmt.Sprintf("P=%s·G1 (%s) Q=%s·G2 (%s) a=%s b=%s", p.Text(16), fP, q.Text(16), fQ, a.Text(16), b.Text(16))
 			ePQ := bls.Pair(P, Q)
 			pq := new(big.Int).Mul(p, q)
 			if !ePQ.IsEqual(gtExp(e0, pq, r)) {
@@ -271,7 +312,7 @@ func TestC13Pairing(t *testing.T) {
 			prodS.SetIdentity()
 			desc := ""
 			hasId, hasZero, hasIdG1 := false, false, false
-			nonId := 0
+			nonId, unnormG1 := 0, 0
 			for i := 0; i < n; i++ {
 				p, _ := drawExp(t, a1, fmt.Sprintf("p%d", i))
 				q, _ := drawExp(t, a1, fmt.Sprintf("q%d", i))
@@ -301,7 +342,13 @@ func TestC13Pairing(t *testing.T) {
 				hasId = hasId || p.Sign() == 0 || q.Sign() == 0
 				hasIdG1 = hasIdG1 || p.Sign() == 0
 				hasZero = hasZero || new(big.Int).Mod(k, r).Sign() == 0
-				P, Q := mkG1(p), mkG2(q)
+				P, fP := formG1(t, a1, p, fmt.Sprintf("pform%d", i))
+				Q, fQ := formG2(t, a2, q, fmt.Sprintf("qform%d", i))
+				vlib.Class(sub, "P-form="+fP)
+				vlib.Class(sub, "Q-form="+fQ)
+				if fP != "affine" && p.Sign() != 0 {
+					unnormG1++
+				}
 				Ps, Qs, ns, signs = append(Ps, P), append(Qs, Q), append(ns, blsScalar(k, 32)), append(signs, sg)
 				pq := new(big.Int).Mul(p, q)
 				expN.Add(expN, new(big.Int).Mul(pq, k))
@@ -315,12 +362,15 @@ func TestC13Pairing(t *testing.T) {
 					inv.Inv(single)
 					prodS.Mul(prodS, &inv)
 				}
-				desc += fmt.Sprintf("[p=%s q=%s n=%s sign=%d] ", p.Text(16), q.Text(16), k.Text(16), sg)
+				desc += fmt.Sprintf("[p=%s (%s) q=%s (%s) n=%s sign=%d] ", p.Text(16), fP, q.Text(16), fQ, k.Text(16), sg)
 			}
 			vlib.Eval(sub)
 			vlib.Class(sub, fmt.Sprintf("len=%d", n))
 			if hasId {
 				vlib.Class(sub, "contains-identity-argument")
+			}
+			if hasIdG1 && unnormG1 > 0 {
+				vlib.Class(sub, "identity-in-G1-list-next-to-unnormalised-points")
 			}
 			if hasIdG1 && nonId > 0 {
 				vlib.Class(sub, "identity-in-G1-list-next-to-ordinary-pairs")
